@@ -76,6 +76,11 @@ class Program:
             _desugar_fn_values(facts)
             _normalise(facts)
             _inline_new_ctor_fns(facts)
+            if facts.get("_view_helpers_inlined"):
+                # the second reading of the program (see check.py): every helper the reviewed tree does not
+                # have is read at its call sites
+                _inline_new_fns(facts)
+                _normalise(facts)  # (parameters bound to trivial arguments are read through like any other local)
             facts["_desugared"] = True
         self.fns = [hir.Fn(r, facts) for r in facts["fns"]]
         self.by_def = {f.def_path: f for f in self.fns}
@@ -249,7 +254,7 @@ def _desugar_fn_values(facts):
         return counter[0]
 
     def arity_of(path_node, method, pos, nargs):
-        d = (path_node.get("res") or {}).get("path")
+        d = (path_node.get("callee") or {}).get("resolved") or (path_node.get("res") or {}).get("path")
         for r in facts["fns"]:
             if r["def"] == d:
                 return len(r.get("params", []))
@@ -317,7 +322,7 @@ def _desugar_fn_values(facts):
                     a0 = a
                     while isinstance(a0, dict) and a0.get("k") in ("DropTemps", "Use", "Cast", "Type", "AddrOf"):
                         a0 = a0["x"]
-                    if isinstance(a0, dict) and a0.get("k") == "Path" and (a0.get("res") or {}).get("res") == "Def" and (a0["res"].get("kind") in ("Fn", "AssocFn")) and a0["res"].get("path") in local_defs:
+                    if isinstance(a0, dict) and a0.get("k") == "Path" and (a0.get("res") or {}).get("res") == "Def" and (a0["res"].get("kind") in ("Fn", "AssocFn")) and (a0["res"].get("path") in local_defs or (a0.get("callee") or {}).get("resolved") in local_defs):
                         if not a0.get("callee"):
                             a0["callee"] = {"path": a0["res"]["path"], "name": a0["res"]["path"].split("::")[-1], "krate": a0["res"].get("krate"), "kind": a0["res"].get("kind")}
                         ar = arity_of(a0, n["method"], i, len(n["args"]))
@@ -796,6 +801,175 @@ def _inline_new_ctor_fns(facts):
         if left[d] == 0:
             cr["gen"] = True
             cr["inlined_ctor"] = True
+
+
+def _inline_new_fns(facts):
+    """The general form of _inline_new_ctor_fns: a function that the reviewed tree does not have (a helper a
+    clean-up extracted), that is not recursive, is no trait method some type overrides, binds its parameters
+    by plain names and leaves only through its tail expression (no `return`, no `?`), is read at its call
+    sites as the block `{ let <param> = <argument>; ..; <body> }` with its locals renamed apart.  When every
+    reference to it has been replaced it is hidden from the rules like generated code: they see the code
+    where it runs, as they did before the helper was extracted."""
+    import copy
+
+    reviewed = {_generic_free(d) for d in _reviewed_table()}
+    if not reviewed:
+        return
+    counter = [80_000_000]
+
+    def fresh():
+        counter[0] += 1
+        return counter[0]
+
+    overridden = set()
+    for r in facts["fns"]:
+        if r.get("impl_of_trait"):
+            overridden.add((r["impl_of_trait"], r["def"].split("::")[-1]))
+
+    def candidate(r):
+        if "body" not in r or r.get("gen") or r.get("in_test") or r.get("impl_of_trait") or r.get("inlined_ctor"):
+            return False
+        d = _generic_free(r["def"])
+        if d in reviewed or r["def"] in reviewed:
+            return False
+        if r["def"].split("::")[-1] in ("main",) or "::tests::" in r["def"] or r["def"].startswith("tests::"):
+            return False
+        tr = "::".join(r["def"].split("::")[:-1])
+        if (tr, r["def"].split("::")[-1]) in overridden:
+            return False
+        for prm in r.get("params", []):
+            pat = prm.get("pat") or {}
+            if pat.get("k") != "Binding" or pat.get("sub"):
+                return False
+        n = 0
+        for x in _walk_json(r["body"]):
+            n += 1
+            if x.get("k") in ("Ret", "Yield", "InlineAsm"):
+                return False
+            if x.get("k") == "Match" and (x.get("source") or "").startswith("TryDesugar"):
+                return False
+            c = x.get("callee") or {}
+            if _generic_free(c.get("path") or "") == d:
+                return False
+        return n < 600
+
+    def rename(params, body):
+        """a copy of (param patterns, body) with fresh node ids and fresh local ids"""
+        new = copy.deepcopy({"params": params, "body": body})
+        lmap = {}
+        for x in _walk_json(new):
+            if "id" in x and isinstance(x["id"], int):
+                x["id"] = fresh()
+            if x.get("k") == "Binding" and "local" in x:
+                if x["local"] not in lmap:
+                    lmap[x["local"]] = fresh()
+        for x in _walk_json(new):
+            if x.get("k") == "Binding" and "local" in x:
+                x["local"] = lmap[x["local"]]
+            elif x.get("k") == "Path" and (x.get("res") or {}).get("res") == "Local" and x["res"].get("local") in lmap:
+                x["res"] = dict(x["res"], local=lmap[x["res"]["local"]])
+        return new["params"], new["body"]
+
+    for _round in range(3):
+        cands = {_generic_free(r["def"]): r for r in facts["fns"] if candidate(r)}
+        if not cands:
+            return
+        left = {d: 0 for d in cands}
+        changed = False
+        for r in facts["fns"]:
+            if "body" not in r or r.get("gen"):
+                continue
+            # innermost calls first: a call node is replaced in place, its (already visited) children move along
+            nodes = [n for n in _walk_json(r["body"]) if n.get("k") in ("Call", "MethodCall") and n.get("callee")]
+            for n in reversed(nodes):
+                d = _generic_free((n["callee"].get("path") or ""))
+                cr = cands.get(d)
+                if cr is None or cr is r:
+                    continue
+                args = ([n["recv"]] if n.get("k") == "MethodCall" else []) + list(n.get("args", []))
+                if len(args) != len(cr.get("params", [])):
+                    left[d] += 1
+                    continue
+                pats, body = rename([prm["pat"] for prm in cr["params"]], cr["body"])
+                b = body
+                while isinstance(b, dict) and b.get("k") in ("DropTemps", "Use") and "x" in b:
+                    b = b["x"]
+                if not (isinstance(b, dict) and b.get("k") == "BlockExpr"):
+                    left[d] += 1
+                    continue
+                def simple(a_, depth=0):
+                    while isinstance(a_, dict) and a_.get("k") in ("DropTemps", "Use") and "x" in a_:
+                        a_ = a_["x"]
+                    if not isinstance(a_, dict) or depth > 4:
+                        return False
+                    if a_.get("k") in ("Path", "Lit"):
+                        return True
+                    if a_.get("k") in ("Field", "AddrOf", "Cast") or (a_.get("k") == "Unary" and a_.get("op") == "Deref"):
+                        return simple(a_.get("x"), depth + 1)
+                    return False
+
+                lets = []
+                for pt, a in zip(pats, args):
+                    uses = [x for x in _walk_json(b) if x.get("k") == "Path" and (x.get("res") or {}).get("res") == "Local" and x["res"].get("local") == pt.get("local")]
+                    assigned = any(x.get("k") in ("Assign", "AssignOp") and isinstance(x.get("l"), dict) and x["l"].get("k") == "Path" and (x["l"].get("res") or {}).get("local") == pt.get("local") for x in _walk_json(b))
+                    if simple(a) and not assigned:
+                        # a parameter bound to a name / place / literal is that argument wherever it is read
+                        for u in uses:
+                            arg = copy.deepcopy(a)
+                            for y in _walk_json(arg):
+                                if "id" in y and isinstance(y["id"], int):
+                                    y["id"] = fresh()
+                            keep_u = {kk: u[kk] for kk in ("id",) if kk in u}
+                            u.clear()
+                            u.update(arg)
+                            u.update(keep_u)
+                        continue
+                    lets.append({"k": "Let", "id": fresh(), "sp": a.get("sp"), "pat": pt, "init": a})
+                blk = b["block"]
+                keep = {kk: n[kk] for kk in ("id", "sp", "ty", "adj", "aty") if kk in n}
+                stmts_ = lets + list(blk.get("stmts", []))
+                if not stmts_ and "tail" in blk:
+                    t_ = blk["tail"]
+                    while isinstance(t_, dict) and t_.get("k") in ("DropTemps", "Use") and "x" in t_:
+                        t_ = t_["x"]
+                    newn = dict(t_)
+                    newn["inlined_fn"] = d
+                    keep = {kk: n[kk] for kk in ("id",) if kk in n}
+                else:
+                    newn = {"k": "BlockExpr", "block": {"k": "Block", "id": fresh(), "sp": blk.get("sp"), "unsafe": blk.get("unsafe", False), "stmts": stmts_}, "inlined_fn": d}
+                    if "tail" in blk:
+                        newn["block"]["tail"] = blk["tail"]
+                n.clear()
+                n.update(newn)
+                n.update(keep)
+                changed = True
+            for n in _walk_json(r["body"]):
+                if n.get("k") == "Path" and (n.get("res") or {}).get("res") == "Def":
+                    d = _generic_free(n["res"].get("path") or "")
+                    if d in cands and cands[d] is not r:
+                        left[d] += 1
+        for d, cr in cands.items():
+            if left[d] == 0:
+                cr["gen"] = True
+                cr["inlined_ctor"] = True
+        if not changed:
+            break
+    # node ids double as positions (a rule asks what happened *before* a node): number the functions that
+    # received inlined code again, in evaluation (pre-) order
+    def renumber(n, nxt):
+        if isinstance(n, dict):
+            if "id" in n and isinstance(n["id"], int):
+                n["id"] = nxt[0]
+                nxt[0] += 1
+            for v in list(n.values()):
+                renumber(v, nxt)
+        elif isinstance(n, list):
+            for v in n:
+                renumber(v, nxt)
+
+    for r in facts["fns"]:
+        if "body" in r and not r.get("gen") and any(x.get("inlined_fn") for x in _walk_json(r["body"])):
+            renumber(r["body"], [1])
 
 
 def _walk_json(n):
